@@ -283,6 +283,10 @@ func runFetch(c *harness.Ctx) harness.Result {
 	n := []int{2, 5, 40, 129, 300, 100, 127}[r.Intn(7)]
 	// ... and, for the two middle sizes, as many base profiles fetched at the same time
 	nbase := map[int]int{100: 100, 127: 3}[n]
+	if n == 300 && r.Intn(2) == 0 {
+		// both lists longer than one batch: their batches start and end next to each other several times
+		nbase = 300
+	}
 	var srcs []string
 	profs := map[string]*profile.Profile{}
 	for i := 0; i < n; i++ {
